@@ -1203,7 +1203,10 @@ static void stormMain() {
       DIR* d = opendir("/proc/self/task");
       if (d) {
         while (dirent* e = readdir(d))
-          if (e->d_name[0] != '.') { int t = atoi(e->d_name); if (t != self) tids.push_back(t); }
+          // every thread except this one and the main thread: the main thread only submits, waits on condition variables
+          // and joins; a signal taken inside pthread_join's internal free() deadlocks the clang-14 TSan runtime itself
+          // (CallUserSignalHandler -> SlotLock while FreeBlock holds the slot), which is not llbuild's doing.
+          if (e->d_name[0] != '.') { int t = atoi(e->d_name); if (t != self && t != pid) tids.push_back(t); }
         closedir(d);
       }
     }
